@@ -12,8 +12,6 @@
 EXTENDS Eval
 
 HoleIn(ks) == CHOOSE i \in 1..Len(ks) : HasHole(ks[i])
-SomeOk(S) == \E o \in S : o[1] = "ok"
-OkVals(S) == {o[2] : o \in {p \in S : p[1] = "ok"}}
 ElemsOf(v) == IF v[1] = "arr" THEN {v[2][i] : i \in 1..Len(v[2])} ELSE IF v[1] = "obj" THEN {kv[2] : kv \in v[2]} ELSE {}
 
 RECURSIVE Reached(_, _)
